@@ -12,8 +12,9 @@ import traceback
 from typing import Any
 
 ROOT = os.path.dirname(os.path.dirname(os.path.abspath(__file__)))
-EVIDENCE_DIR = os.path.join(ROOT, 'evidence')
-REPLAY_DIR = os.path.join(ROOT, 'replays')
+_OUT = os.environ.get('VERIF_OUT_DIR') or ROOT   # diverted when checks run against a mutant
+EVIDENCE_DIR = os.path.join(_OUT, 'evidence')
+REPLAY_DIR = os.path.join(_OUT, 'replays')
 FINDINGS_FILE = os.path.join(ROOT, 'known_findings.json')
 
 
